@@ -23,7 +23,7 @@ pub static DEF: PropDef = PropDef {
     level: "exploration",
     total: |t| t.pick(64, 4800),
     run,
-    rule: "decoder inputs: uniformly random bytes of length 0..120, every truncation of valid packets, valid packets with one field pushed to an extreme (IHL, total_length 0..19, TTL 0, data offset, DHCP type 0 and 8..255, rdlength, non-UTF-8 / unterminated names) or random bit flips, and compound mutations (2..4 of truncation, bit flip, byte or 16-bit field set to an extreme, extension applied to one packet); each of Ipv4Header/UdpHeader/TcpHeader/ArpPacket/DnsMessage/DhcpMessage::from_bytes plus DnsQuestion::query_name and MessageType::try_from must return, not unwind, and so must the next thing the stack does with an accepted header (re-serialise it, strip header.ihl*4 / 8 / 20 bytes from the frame as Ipv4/Udp/Tcp::demux do). NDL texts: the repository's .ndl/.txt files mutated by token insertion/deletion/duplication, truncation at every kind of position, indentation shifts (tabs, 4 spaces, mixed), keyword swaps incl. IPtype, quotes/brackets/backslashes, CRLF and non-ASCII; core_parser must return Ok or Err. Full-stack part: malformed raw frames (16 single-fault classes plus compound mutations: one to three of version/IHL, total length, fragment word, protocol, UDP length, TCP data offset, truncation, extension applied together, so that fields disagree with each other and with the bytes that arrived) injected with PciSession::send_pci into running hosts, a router and DHCP/DNS servers must crash nothing, reach no recorder application and leave a concurrent legitimate UDP exchange and TCP connection unaffected (run ends with the scripted status). Non-trivial = distinct (decoder or parser, outcome variant, mutation kind) tuple.",
+    rule: "decoder inputs: uniformly random bytes of length 0..120, every truncation of valid packets, valid packets with one field pushed to an extreme (IHL, total_length 0..19, TTL 0, data offset, DHCP type 0 and 8..255, rdlength, non-UTF-8 / unterminated names) or random bit flips, and compound mutations (2..4 of truncation, bit flip, byte or 16-bit field set to an extreme, extension applied to one packet); each of Ipv4Header/UdpHeader/TcpHeader/ArpPacket/DnsMessage/DhcpMessage::from_bytes plus DnsQuestion::query_name and MessageType::try_from must return, not unwind, and so must the next thing the stack does with an accepted header (re-serialise it, strip header.ihl*4 / 8 / 20 bytes from the frame as Ipv4/Udp/Tcp::demux do). NDL texts: the repository's .ndl/.txt files mutated by token insertion/deletion/duplication, truncation at every kind of position, indentation shifts (tabs, 4 spaces, mixed), keyword swaps incl. IPtype, quotes/brackets/backslashes, CRLF and non-ASCII; core_parser must return Ok or Err. Full-stack part: malformed raw frames (17 single-fault classes, one of them fragments whose data ends within -45..+12 octets of the 64 KiB datagram limit, plus compound mutations: one to three of version/IHL, total length, fragment word, protocol, UDP length, TCP data offset, truncation, extension applied together, so that fields disagree with each other and with the bytes that arrived) injected with PciSession::send_pci into running hosts, a router and DHCP/DNS servers must crash nothing, reach no recorder application and leave a concurrent legitimate UDP exchange and TCP connection unaffected (run ends with the scripted status). Non-trivial = distinct (decoder or parser, outcome variant, mutation kind) tuple.",
     assumptions: &["a panic caught by catch_unwind in the harness is what the simulator's panic hook would turn into process exit"],
     may_exit_process: true,
     watchdog_s: 600,
